@@ -233,16 +233,35 @@ Section Stmt.
         if isT (cur ts1) TyComma then select_items n' d (acc ++ [it]) (advance ts1) else Val (acc ++ [it], ts1)
     end.
 
+  (* parseGroupingExpressionList (ROLLUP / CUBE): ( expr {, expr} ), at least one expression *)
+  Fixpoint grouping_exprs (n : nat) (d : nat) (acc : list gexpr) (ts : list token) : outcome (list gexpr * list token) :=
+    match n with
+    | 0 => OutOfFuel
+    | S n' =>
+        do (e, ts1) <- pe d ts;
+        if isT (cur ts1) TyRParen then Val (acc ++ [e], ts1)
+        else if negb (isT (cur ts1) TyComma) then Err EExpected
+        else grouping_exprs n' d (acc ++ [e]) (advance ts1)
+    end.
+  Definition parse_grouping_list (d : nat) (ts : list token) : outcome (list gexpr * list token) :=
+    if negb (isT (cur ts) TyLParen) then Err EExpected
+    else
+      let ts := advance ts in
+      if isT (cur ts) TyRParen then Err EInvalid
+      else do (l, ts1) <- grouping_exprs (S (length ts)) d [] ts; Val (l, advance ts1).
+
   (* GROUP BY list *)
   Fixpoint group_list (n : nat) (d : nat) (acc : list gexpr) (ts : list token) : outcome (list gexpr * list token) :=
     match n with
     | 0 => OutOfFuel
     | S n' =>
-        if isT (cur ts) TyRollup || isT (cur ts) TyCube || ((isT (cur ts) TyKeyword || isT (cur ts) TyGroupingSets) && String.eqb (lit (cur ts)) "GROUPING SETS")
-           || (isT (cur ts) TyGrouping && eqfold (lit (peek ts)) "SETS") then Unmodelled
-        else
-          do (e, ts1) <- pe d ts;
-          if isT (cur ts1) TyComma then group_list n' d (acc ++ [e]) (advance ts1) else Val (acc ++ [e], ts1)
+        do (e, ts1) <-
+          (if isT (cur ts) TyRollup then do (l, ts1) <- parse_grouping_list d (advance ts); Val (GRollup l, ts1)
+           else if isT (cur ts) TyCube then do (l, ts1) <- parse_grouping_list d (advance ts); Val (GCube l, ts1)
+           else if ((isT (cur ts) TyKeyword || isT (cur ts) TyGroupingSets) && String.eqb (lit (cur ts)) "GROUPING SETS")
+                   || (isT (cur ts) TyGrouping && eqfold (lit (peek ts)) "SETS") then Unmodelled
+           else pe d ts);
+        if isT (cur ts1) TyComma then group_list n' d (acc ++ [e]) (advance ts1) else Val (acc ++ [e], ts1)
     end.
 
   (* ORDER BY list *)
